@@ -253,6 +253,7 @@ class StmtsMixin:
         f = FuncCtx(module, qualname)
         f.base_line = fnode.lineno
         f.loops = loop_ordinals(fnode)
+        f.fnode = fnode
         return f
 
     def s_Assign(self, node, st):
@@ -521,6 +522,12 @@ class StmtsMixin:
         else:
             raise OutOfSubset(f"for over {itv.shape} {itv.d!r}")
         tnames = assigned_in([ast.Assign(targets=[node.target], value=ast.Constant(0))])
+        if mode == "range" and isinstance(node.target, ast.Name) and st.lookup(node.target.id) is None:
+            # the loop variable is read after the loop only if it was bound: the range must be
+            # non-empty when the variable is used later (python would raise UnboundLocalError)
+            if self.used_after(node, node.target.id):
+                self.ctx.oblige(f"loop{ordn}/loop-variable-bound-after-loop", st, lo < hi, kind="safety")
+            st.set_local(node.target.id, V.fresh(INT, node.target.id))
 
         def bind(s, it):
             if mode == "range":
@@ -543,6 +550,14 @@ class StmtsMixin:
 
         return self.cut_loop(node, st, ordn, spec, lo=lo, hi=hi, bind=bind, filt=filt,
                              extra_mod=tnames, builtin_facts=builtin_facts, seq=seq)
+
+    def used_after(self, loopnode, name):
+        fnode = self.fctx.fnode
+        end = getattr(loopnode, "end_lineno", loopnode.lineno)
+        for n in ast.walk(fnode):
+            if isinstance(n, ast.Name) and n.id == name and isinstance(n.ctx, ast.Load) and n.lineno > end:
+                return True
+        return False
 
     def unrolled_for(self, node, items, st):
         live = [st]
